@@ -196,8 +196,8 @@ def part_chain_sampler(ctx, pq, quick, rng):
             if k not in seen:
                 seen.add(k)
                 todo.append(r)
-        if quick and len(todo) > 260:
-            todo = rng.sample(todo, 260)
+        if len(todo) > (260 if quick else 1500):
+            todo = rng.sample(todo, 260 if quick else 1500)
         for r in todo:
             law = {}
             if isinstance(r["law"], list):
@@ -309,8 +309,8 @@ def part_reference_state(ctx, pq, quick, rng):
         losses = [L.loss(i, t) for i in range(d) for t in rng.sample(["4/5", "3/5", "1/sqrt2"], 1)]
         inputs = L.inputs(d, 3, rng=rng, size=nin)
         recs = c05.explore(ctx, d, gates, losses, [], inputs, depth)
-        if quick and len(recs) > 120:
-            recs = rng.sample(recs, 120)
+        if len(recs) > (120 if quick else 400):
+            recs = rng.sample(recs, 120 if quick else 400)
         for rec in recs:
             inp, steps, probs, amps, nsys, nanc = c05.decode(rec)
             if any("kind" in st for st in steps) or not steps:
@@ -457,8 +457,8 @@ def part_distinguishable_sampler(ctx, pq, quick, rng):
         gates = L.passive_catalogue(d, rng=rng, size=ng, with_kerr=False)
         losses = [L.loss(i, t) for i in range(d) for t in rng.sample(["4/5", "1/sqrt2"], 1)] if with_loss else []
         recs = DR.explore(ctx, d, nc, gates, photons, depth, losses)
-        if quick and len(recs) > 70:
-            recs = rng.sample(recs, 70)
+        if len(recs) > (70 if quick else 300):
+            recs = rng.sample(recs, 70 if quick else 300)
         for rec in recs:
             ph, law = rec["photons"], rec["law"]
             ins, name, lossy = c05.dist_program(pq, d, ph, gates, losses, rec["steps"])
@@ -535,8 +535,8 @@ def part_generaldyne(ctx, pq, quick, rng):
     gates = L.gaussian_catalogue(d, rng=rng, size=5 if quick else 9)
     depth = 2 if quick else 3
     recs = GR.explore(ctx, d, gates, depth)
-    if quick and len(recs) > 40:
-        recs = rng.sample(recs, 40)
+    if len(recs) > (40 if quick else 150):
+        recs = rng.sample(recs, 40 if quick else 150)
     dets = {"Heterodyne": (lambda: pq.HeterodyneMeasurement(), np.identity(2), 2),
             "Generaldyne": (lambda: pq.GeneraldyneMeasurement(np.array([[2.0, 0.0], [0.0, 0.5]])), np.array([[2.0, 0.0], [0.0, 0.5]]), 2),
             "Homodyne": (lambda: pq.HomodyneMeasurement(), np.array([[1e-8, 0.0], [0.0, 1e8]]), 1),
@@ -608,8 +608,8 @@ def part_postselect_order(ctx, pq, quick, rng, pid="C02"):
     inputs = [v for v in L.inputs(d, 3) if sum(v) >= 2]
     recs = c05.explore(ctx, d, gates, [], [], rng.sample(inputs, 2 if quick else 5), 1 if quick else 2)
     recs = [r for r in recs if len(r["hist"]) > 1]
-    if quick and len(recs) > 10:
-        recs = rng.sample(recs, 10)
+    if len(recs) > (10 if quick else 40):
+        recs = rng.sample(recs, 10 if quick else 40)
     for rec in recs:
         inp, steps, probs, amps, nsys, nanc = c05.decode(rec)
         ins0 = [pq.NumberState(inp).on_modes(*range(d))]
